@@ -100,7 +100,7 @@ def spell(rng, base_url, target_url, allow_classes):
     elif cls == 'upper-scheme-host':
         href = scheme.upper() + '://' + host.upper() + path
     elif cls == 'default-port':
-        href = scheme + '://' + host + ':80' + path
+        href = scheme + '://' + host + ':80' + path if ':' not in host else target_url
     elif cls == 'scheme-relative':
         href = '//' + host + path
     elif cls == 'fragment':
@@ -273,3 +273,31 @@ def make_handler(site, robots=None, hosts=None):
                     'body': b'<html><body>moved</body></html>'}
         return {'status': 200, 'headers': [('Content-Type', page.content_type())], 'body': page.body()}
     return handler
+
+
+def row_metadata_problems(url, row, rowmap, pages, start):
+    '''Problems of the link metadata recorded with a URL-table row, judged against the site graph: root = the start
+    URL, parent = a stored page that serves a link to this URL, level = parent's level + 1, inline level = parent's
+    inline level + 1 when the parent embeds it (img, frame, stylesheet, script, css url) and none (NULL/0) when the
+    parent merely links to it.  When the parent does both, either value is accepted.'''
+    problems = []
+    if row['root'] != start:
+        problems.append('root')
+    parent = rowmap.get(row['parent'])
+    ppage = pages.get(row['parent'])
+    if ppage is not None and ppage.kind == 'redirect':
+        ppage = pages.get(ppage.location[1])
+    kinds = set(l['kind'] for l in ppage.links if l['target'] == url) if ppage is not None else set()
+    if parent is None or not kinds:
+        problems.append('parent')
+        return problems
+    if row['level'] != parent['level'] + 1:
+        problems.append('level')
+    allowed = set()
+    if kinds - set(INLINE_KINDS):
+        allowed |= {None, 0}
+    if kinds & set(INLINE_KINDS):
+        allowed.add((parent['inline_level'] or 0) + 1)
+    if row['inline_level'] not in allowed:
+        problems.append('inline-level[{}]'.format('+'.join(sorted(kinds))))
+    return problems
